@@ -348,15 +348,44 @@ def run_reserve(rec, F):
         # helpers that are part of the call protocol (push the result into the slot freed by callee+args) are exempt:
         # a push that follows a drop/drop_n/pop in the same function re-uses released space
         ens = [(bi, t) for bi, t in fn.calls() if lastseg(t["f"]) == "ensure_stack"]
+
+        def len_leaf(f, kind, payload):
+            if kind == "call" and lastseg(payload["f"]) == "len":
+                return "len"
+            return None
+
+        def in_loop(b):
+            return any(sem.reaches(fn, x, b) for x in fn.succ(b))
+        released_any = False
+        need = {}
         for bi, t in pushes:
             n += 1
             released = any(lastseg(t2["f"]) in ("drop", "drop_n", "pop", "pop_frame") and fn.dominates(b2, bi) for b2, t2 in fn.calls())
-            covered = [sem.const_int(t2["args"][-1]) for b2, t2 in ens if fn.dominates(b2, bi)]
-            npush_dom = sum(1 for b3, t3 in pushes if fn.dominates(b3, bi))
-            ok = released or (covered and (covered[0] is None or covered[0] >= npush_dom))
-            rec.inst(R, "push@%s" % fn.name, ok=bool(ok), loc=loc_of(t["sp"]), note="released" if released else "ensure_stack%s" % covered)
-            if not ok:
+            if released:
+                rec.inst(R, "push@%s" % fn.name, ok=True, loc=loc_of(t["sp"]), note="re-uses a released slot")
+                continue
+            doms = [(b2, t2) for b2, t2 in ens if fn.dominates(b2, bi)]
+            if not doms:
+                rec.inst(R, "push@%s" % fn.name, ok=False, loc=loc_of(t["sp"]))
                 rec.finding(R, "F1.p/unreserved-push/%s" % fn.name, "%s pushes onto the fiber stack without a dominating ensure_stack (and without having released a slot): the compiler's max_slots does not account for this push" % fn.name, loc=loc_of(t["sp"]), fn=fn.path)
+                continue
+            key = doms[-1][0]
+            need.setdefault(key, {"1": 0, "len": 0, "t": doms[-1][1]})
+            if in_loop(bi):
+                need[key]["len"] += 1
+            else:
+                need[key]["1"] += 1
+        for key, nd in need.items():
+            amount = sem.linform(fn, nd["t"]["args"][-1], len_leaf)
+            if amount is None:
+                # PtrMetadata-based len: evaluate structurally
+                d = str(sem.desc_operand(fn, nd["t"]["args"][-1]))
+                c = re.findall(r"\('const', (\d+)\)", d)
+                amount = {"1": int(c[-1]) if c else 0, "len": 1 if ("PtrMetadata" in d or "'len'" in d) else 0}
+            ok = amount.get("1", 0) >= nd["1"] and amount.get("len", 0) >= min(nd["len"], 1)
+            rec.inst(R, "ensure_stack@%s" % fn.name, ok=ok, loc=loc_of(nd["t"]["sp"]), note="reserves %s for %d pushes + %d per-argument pushes" % (sem.lin_fmt(amount), nd["1"], nd["len"]))
+            if not ok:
+                rec.finding(R, "F1.p/under-reserved/%s" % fn.name, "%s reserves %s stack slots but then pushes %d values plus one per element of its argument slice" % (fn.name, sem.lin_fmt(amount), nd["1"]), loc=loc_of(nd["t"]["sp"]), fn=fn.path)
     rec.floor(R, "pushes in VM helpers", n, 3)
     pf = F.fn("laythe_vm::fiber::Fiber::push_frame")
     if pf is None:
